@@ -122,7 +122,7 @@ def gen_unschedulable(rng, cls, d):
 
 
 def extra_cases(ctx):
-    per_class = 14 if ctx.tier == 'quick' else 250
+    per_class = 12 if ctx.tier == 'quick' else 250
     res = []
     for cls in CLASSES:
         for k in range(per_class):
@@ -195,7 +195,21 @@ def classes_of(case, out):
     return found or ['none_of_the_classes']
 
 
+def deep_chains(ctx):
+    """F16: the recursive helpers (all_predecessors, clone, the loop check, the passes) need one interpreter
+    frame per link of a dependency chain: chains longer than the recursion limit crash calc with
+    RecursionError.  The model has no interpreter stack, so this is probed on the implementation only."""
+    outs = ctx.impl_run('c14_deep_impl', {'lengths': [400, 1500]})
+    for o in outs:
+        if o['outcome'] >= 10 or o['build'] >= 10:
+            ctx.failure('C14/deep-chain/RecursionError' if 10 in (o['outcome'], o['build']) else 'C14/deep-chain/crash',
+                        'calc (%s) on a chain of %d dependent tasks: outcome class %d (recursion limit %d)'
+                        % (o['dir'], o['n'], o['outcome'] or o['build'], o['recursion_limit']), o)
+    return outs
+
+
 def run(ctx):
+    ctx.coverage_deep = deep_chains(ctx)
     stats = {}
     generated = {}
 
@@ -214,7 +228,7 @@ def run(ctx):
             g['cases'] += 1
             g[label] += 1
 
-    sc.run_property(ctx, ID, FAIL, MISMATCH, extra=extra, n_quick=190, n_thorough=3000, extra_cases=extra_cases)
+    sc.run_property(ctx, ID, FAIL, MISMATCH, extra=extra, n_quick=150, n_thorough=3000, extra_cases=extra_cases)
     dist = dict(ctx.coverage.get('distribution') or {})
     dist['classes_by_analysis_of_the_abstract_input'] = stats
     dist['extra_stream_by_intended_class'] = generated
